@@ -34,7 +34,7 @@ CHECKS = {
             "DESIGN.md 6/C02"),
     "C03": ("exploration",
             "bounded exhaustive enumeration of well-typed programs, all their single-point perturbations and all small annotated terms, judged by an independent NbE type checker",
-            "For every program of the space that the real front end accepts (7.5 M programs in the quick tier: type-directed programs, annotation variants, every single-point perturbation at every subterm position, all closed annotated terms up to 6/7 nodes, the alias family), the elaborated term must be closed and an independent checker for explicitly typed terms (typing rules + lazy normalisation-by-evaluation with fuel) must derive a type convertible with the reported one.",
+            "For every program of the space that the real front end accepts (type-directed programs up to 6/7 nodes, their annotation variants, every single-point perturbation at every subterm position of the programs up to 5 nodes (quick) / of all of them (thorough), all closed annotated terms up to 6/7 nodes, the alias and nested-group families), the elaborated term must be closed and an independent checker for explicitly typed terms (typing rules + lazy normalisation-by-evaluation with fuel) must derive a type convertible with the reported one.",
             "Trusted: engine/src/model/typing.rs (the standard rules; gram's deliberate choices - type : type, `_` : type, implicit functions not applicable, annotation-blind conversion, no eta - are followed). Fuel exhaustion never yields a verdict. F-HOLE-COPY is a known finding with a defect-model classifier that only fires on programs with holes.",
             "DESIGN.md 6/C03"),
     "C04": ("model_checking",
@@ -49,12 +49,12 @@ CHECKS = {
             "DESIGN.md 6/C05"),
     "C06": ("model_checking",
             "explicit-state exploration of the real evaluator with the real unifier/normaliser queried in every state, plus exhaustive term pairs against reference conversion",
-            "For every terminating ground-typed program of the space: normalize_weak_head of the elaborated term must equal the value reached by step*; in each of the first 30 states unify(s,s), unify(s0,s), unify(s_prev,s) must hold and leave the context untouched; the operand sweep is repeated through the normaliser; and for all ordered pairs of the 260/800 smallest closed hole-free terms of each of 8 types unify(a,b) = unify(b,a) = reference conversion.",
+            "For every terminating ground-typed program of the space: normalize_weak_head of the elaborated term must equal the value reached by step*; in each of the first 30 states unify(s,s), unify(s0,s), unify(s_prev,s) must hold and leave the context untouched; the operand sweep is repeated through the normaliser; and for all ordered pairs of the 420/1000 smallest closed hole-free terms of each of 8 types unify(a,b) = unify(b,a) = reference conversion.",
             "Trusted: reference conversion (NbE with fuel; pairs that exhaust it are skipped).",
             "DESIGN.md 6/C06"),
     "C13": ("model_checking",
             "stateless choice-tree exploration of hash-set iteration order through a hook, plus a repeat-run differential on the real binary",
-            "The only iteration over a hash container that reaches an output (parser::check_definition) is turned into a choice point by hook H1; a stateless DFS explorer replays permutation prefixes and enumerates every permutation at every choice point for every member of the definition-order family (all groups of up to 3/4 definitions, each a literal, a lambda or a non-value expression mentioning any subset of the group; top level and nested in a called function). All leaves of a program's choice tree must be byte-identical results. The ownership of the nondeterminism is cross-checked by launching the real binary (hooks off, fresh hash seed per process) 6/24 times per file on the examples and on multi-diagnostic programs, for both `check` and `run`.",
+            "The only iteration over a hash container that reaches an output (parser::check_definition) is turned into a choice point by hook H1; a stateless DFS explorer replays permutation prefixes and enumerates every permutation at every choice point for every member of the definition-order family (all groups of up to 3/4 definitions, each a literal, a lambda or a non-value expression mentioning any subset of the group; at top level, nested in a called function, and nested with every definition also mentioning an enclosing parameter; at most 300/5000 leaves per program, capped trees are counted and the run is then not called exhaustive). All leaves of a program's choice tree must be byte-identical results. The ownership of the nondeterminism is cross-checked by launching the real binary (hooks off, fresh hash seed per process) 6/24 times per file on the examples and on multi-diagnostic programs, for both `check` and `run`.",
             "Trusted: hook H1 (identity on ordered containers, so a repaired tree has no choice points). The process-level part is a repeat-run differential (sampling of hash seeds), labelled as such; the deciding step is the exhaustive permutation tree.",
             "DESIGN.md 6/C13"),
     "C15": ("exploration",
@@ -80,16 +80,16 @@ CHECKS = {
     "C14": ("exploration",
             "bounded exhaustive enumeration of strings, token sequences, edited sentences and byte files in crash-isolated workers",
             "Every string up to the C09 bounds, every token sequence up to length 4/5 over all 29 token symbols and 5/6 over a 21-symbol class alphabet (including streams tokenize itself never emits), and every grammar.y sentence up to 5/7 tokens with every single-token deletion, substitution and insertion is pushed through the real tokenize and parse in worker processes with the same 16 MiB stack as the shipped binary; a panic is caught and reported with its message, an abort or watchdog expiry is attributed to the case in flight. The real `gram check` binary is launched on every byte string of length <= 1, byte pairs, invalid-UTF-8 mutations of the examples, an empty / missing file and a directory, and must honour the exit-code / stdout / stderr contract and agree with the in-process pipeline.",
-            "Trusted: the worker supervision (signal handler dumps the case in flight; driver restarts). Type checking of arbitrary input is covered by C01/C03/C05 where the reference checker classifies abnormal endings; here only the always-terminating stages are driven in-process, and all of `gram check` at process level.",
+            "Trusted: the worker supervision (signal handler dumps the case in flight; driver restarts). Token sequences that parse are also type checked in-process unless the reference finds a divergent piece in them (pre-screen); all of `gram check` is driven at process level.",
             "DESIGN.md 6/C14"),
     "C17": ("exploration",
             "systematic enumeration of input families on a ladder of sizes with a deterministic work counter",
-            "All 484 input families of period 1 and 2 over 22 syntactic wrappers, each in 8 variants (well formed, truncated four ways, wrong token planted at three places), are run through the real tokenize+parse at n = 1, 2, 4, ... 1024 (quick) / 8192 (thorough) nested repetitions on a 2 GiB stack; the work measure is the number of heap allocations (deterministic), backed by a wall-clock cap per rung. A finite ladder gives evidence of the growth law, not a proof for all n; exponential or super-quadratic behaviour shows up within the first rungs.",
+            "All 784 input families of period 1 and 2 over 28 syntactic wrappers (including chains that end in two parenthesised operands), each in 8 variants (well formed, truncated four ways, wrong token planted at three places), are run through the real tokenize+parse at n = 1, 2, 4, ... 512 (quick) / 8192 (thorough) nested repetitions on a 2 GiB stack; the work measure is the number of heap allocations (deterministic), backed by a wall-clock cap per rung. A finite ladder gives evidence of the growth law, not a proof for all n; exponential or super-quadratic behaviour shows up within the first rungs.",
             "Trusted: heap allocations as a proxy for parser work; thresholds (40 T^2 + 2e5 absolute, factor 6 per doubling for well-formed input) are 20x / 3x above the values measured on the unchanged tree.",
             "DESIGN.md 6/C17"),
     "C07": ("exploration",
             "bounded exhaustive enumeration of token sequences and grammar.y derivation trees against a grammar-derived oracle",
-            "Every token sequence up to length 5 (quick) / 6 (thorough) over all 28 token kinds plus the line-break terminator is parsed by the real parser and its acceptance compared with membership in the set of sentences enumerated from /repo/grammar.y (read at run time); enumeration also certifies that no sentence has two derivations. Every derivation tree up to 6-7 tokens (full alphabet), 8-9 tokens (class alphabet) and 11-13 tokens (seven sub-grammar slices: application chains, sums, products, mixed arithmetic, let groups, binder forms, if-let) is parsed and the result compared node for node with the tree the derivation specifies (left-folded chains, parentheses honoured). Exhaustive within those bounds.",
+            "Every token sequence up to length 4 (quick) / 5 (thorough) over all 28 token kinds plus the line-break terminator, and of length 5 / 6 over a 21-symbol class alphabet, is parsed by the real parser and its acceptance compared with membership in the set of sentences enumerated from /repo/grammar.y (read at run time); enumeration also certifies that no sentence has two derivations. Every derivation tree up to 6-7 tokens (full alphabet), 8-9 tokens (class alphabet) and 11-13 tokens (seven sub-grammar slices: application chains, sums, products, mixed arithmetic, let groups, binder forms, if-let) is parsed and the result compared node for node with the tree the derivation specifies (left-folded chains, parentheses honoured). Exhaustive within those bounds.",
             "Trusted: the production-to-node mapping and re-association rule in engine/src/model/surface.rs (transcribed from grammar.y's header and the property), the derivation enumerator (cross-examined on every 97th sequence by an independent span recogniser over the same rules). Identifier spelling is abstracted (binders fresh, uses bound through parse's context parameter).",
             "DESIGN.md 6/C07"),
     "C10": ("model_checking",
